@@ -1,4 +1,5 @@
-"""C15: correspondence for ORF scanning (all_orfs.scan_orfs) and intergenic areas
+"""C15: correspondence for ORF scanning (all_orfs.scan_orfs, over its whole argument space: offset negative / zero / positive
+with the window overshooting the record end / beyond the record length, record length given or not) and intergenic areas
 (all_orfs.find_intergenic_areas), plus an implementation-side oracle on every scan result:
 the reported location, extracted from the genome with Biopython, must be an open reading frame.
 find_all_orfs is run on real Records; the witnesses of the repaired findings FC15a area_misses_enclosing_gene,
@@ -22,6 +23,23 @@ def revcomp(s):
     return "".join(COMP[c] for c in reversed(s))
 
 
+def ref_orfs(seq, starts, stops):
+    """ independent scanner: (first, last) pairs, last inclusive, in the coordinates of seq """
+    text = seq.upper()
+    found = []
+    for frame in range(3):
+        begin = None
+        for i in range(frame, len(text) - 2, 3):
+            codon = text[i:i + 3]
+            if begin is None and codon in starts:
+                begin = i
+            elif codon in stops:
+                if begin is not None:
+                    found.append((begin, i + 2))
+                begin = None
+    return found
+
+
 def enc_pyloc(loc):
     out = [len(loc.parts)]
     for p in loc.parts:
@@ -43,9 +61,9 @@ class Gen:
             return self.rng.choice(self.stops)
         return "".join(self.rng.choice(BASES) for _ in range(3))
 
-    def dna(self, max_codons=40):
+    def dna(self, max_codons=40, sizes=(0, 1, 2, 3, 5, 8, 12, 20)):
         rng = self.rng
-        n = rng.choice([0, 1, 2, 3, 5, 8, 12, 20, max_codons])
+        n = rng.choice(list(sizes) + [max_codons])
         s = "".join(rng.choice(BASES) for _ in range(rng.randint(0, 2)))
         s += "".join(self.codon() for _ in range(n))
         s += "".join(rng.choice(BASES) for _ in range(rng.randint(0, 2)))
@@ -58,31 +76,106 @@ class Gen:
             s = "".join(chars)
         return s
 
-    def scan_case(self):
-        """ the way find_all_orfs calls scan_orfs: a window of a genome, possibly starting before the origin """
+    def planted(self):
+        """ a text with 1-3 planted ORFs (start codon, 0-8 codons that are no stop codons, stop codon) in any frames,
+            separated and framed by 0-7 random bases; sometimes in lower case / with an ambiguity code """
         rng = self.rng
-        genome = self.dna(60)
-        n = len(genome)
+        text = ""
+        for _ in range(rng.choice([1, 1, 2, 3])):
+            text += "".join(rng.choice(BASES) for _ in range(rng.randint(0, 7)))
+            text += rng.choice(self.starts)
+            for _ in range(rng.choice([0, 1, 2, 3, 5, 8])):
+                codon = self.codon()
+                text += codon if codon not in self.stops else "GCA"
+            text += rng.choice(self.stops)
+        text += "".join(rng.choice(BASES) for _ in range(rng.randint(0, 7)))
+        if rng.random() < 0.1:
+            i = rng.randrange(len(text))
+            text = text[:i] + rng.choice([text[i].lower(), "N", "R", "y"]) + text[i + 1:]
+        return text
+
+    def scan_case(self):
+        """ scan_orfs over its whole argument space.  With a record length: a window of at most the record length cut out
+            of a ring, the ring's origin placed at a chosen place of the window (outside it: window entirely before the
+            record end; at its end: window ending exactly at the record end; 1-3 bases before its end; on / next to the
+            boundaries of an ORF of the window, so that the window overshoots the record end by less or by more than one
+            ORF and ORFs lie before, over and after the origin), and the window's position told as scan_orfs accepts it:
+            by its real start coordinate (offset >= 0, the window running past the record end), by the negative
+            offset find_all_orfs uses (start - record length), or a whole turn further on either side.  Without a
+            record length: a window of a linear genome (offset >= 0) or a free-standing text with a negative offset. """
+        rng = self.rng
         r = rng.random()
-        if n == 0 or r < 0.1:
-            # free-standing call without a record length
-            seq = self.dna()
-            return {"genome": None, "seq": seq, "direction": rng.choice([1, -1]), "offset": rng.randint(0, 30),
-                    "minimum": self.minimum(seq), "record_length": None}
-        if r < 0.45:
-            start, end = 0, n
-        elif r < 0.75:
-            start = rng.randrange(0, n)
-            end = rng.randrange(start, n + 1)
-        else:
-            # window crossing the origin: negative start
-            end = rng.randrange(0, n + 1)
-            start = -rng.randrange(1, n - end + 1) if n - end >= 1 else 0
-        chunk = genome[start:end] if start >= 0 else genome[n + start:] + genome[:end]
         direction = rng.choice([1, -1])
-        seq = chunk if direction == 1 else revcomp(chunk)
-        return {"genome": genome, "seq": seq, "direction": direction, "offset": start,
-                "minimum": self.minimum(seq), "record_length": n}
+        if r < 0.12:
+            # no record length: a window of a linear genome, or (negative offset) a free-standing text
+            seq = self.dna()
+            offset = rng.choice([0, 0, 1, 2, 3, rng.randint(0, 30), -rng.randint(1, 30)])
+            genome = None
+            if offset >= 0:
+                chunk = seq if direction == 1 else revcomp(seq)
+                genome = "".join(rng.choice(BASES) for _ in range(offset)) + chunk + \
+                    "".join(rng.choice(BASES) for _ in range(rng.choice([0, 0, 1, 5])))
+            return {"genome": genome, "seq": seq, "direction": direction, "offset": offset,
+                    "minimum": self.minimum(seq), "record_length": None, "ring": False,
+                    "classes": ["rl_none", "offset_" + ("negative" if offset < 0 else "zero" if offset == 0 else "positive")]}
+        if rng.random() < 0.4:
+            seq = self.planted()
+        else:
+            seq = self.dna(rng.choice([12, 20, 40, 40, 60]), sizes=[0, 1, 2, 4, 6, 8, 12, 12, 20, 20, 30])
+        length = len(seq)
+        chunk = seq if direction == 1 else revcomp(seq)
+        classes = []
+        # record length: the window is the whole record, nearly, or a part of it
+        n = length + rng.choice([0, 0, 1, 2, 3, rng.randint(4, 12), rng.randint(4, 60)])
+        if n == 0:
+            n = rng.randint(1, 30)
+        classes.append("window_is_record" if n == length else "window_shorter_than_record")
+        # where in the window (chunk coordinates, 0 .. length) the origin of the ring falls; None = not inside
+        orfs = ref_orfs(seq, self.starts, self.stops)
+        where = rng.random()
+        cut = None
+        if length >= 2 and where >= 0.3:
+            if where < 0.4:
+                cut = length - rng.choice([1, 2, 3])
+                classes.append("overshoot_1_to_3")
+            elif where < 0.75 and orfs:
+                first, last = rng.choice(orfs)          # in the coordinates of seq, last inclusive
+                if direction == -1:
+                    first, last = length - 1 - last, length - 1 - first
+                cut = rng.choice([first, first + 1, first + 3, last + 1, last, last - 2, (first + last) // 2])
+                classes.append("origin_at_orf_boundary" if cut in (first, last + 1) else "origin_inside_orf")
+            else:
+                cut = rng.randrange(1, length)
+                classes.append("origin_anywhere")
+            if not 1 <= cut <= length - 1:
+                cut = None
+                classes.pop()
+        if cut is None:
+            # the window does not cross the origin: anywhere before the record end, often ending exactly on it / at 0
+            start = rng.choice([0, n - length, rng.randint(0, n - length)])
+            classes.append("ends_at_record_end" if start + length == n else "before_record_end")
+        else:
+            start = n - cut
+            classes.append("crosses_origin")
+        start %= n
+        # the ways of telling the position
+        offset = rng.choice([start, start, start, start - n, start - n, start + n, start - 2 * n])
+        classes.append("offset_" + ("negative" if -n <= offset < 0 else "zero" if offset == 0 else
+                                    "positive" if 0 < offset < n else "beyond_record_length" if offset >= n
+                                    else "below_minus_record_length"))
+        if offset >= 0 and offset + length > n and cut is not None:
+            classes.append("positive_offset_overshooting")
+        ring = [rng.choice(BASES) for _ in range(n)]
+        for i, char in enumerate(chunk):
+            ring[(start + i) % n] = char
+        minimum = self.minimum(seq)
+        if orfs and rng.random() < 0.6:
+            first, last = rng.choice(orfs)
+            minimum = max(0, last - first + 1 + rng.choice([-3, -2, -1, -1, 0, 1]))
+        elif rng.random() < 0.5:
+            minimum = rng.choice([0, 3, 5, 6, 8, 9])
+        return {"genome": "".join(ring), "seq": seq, "direction": direction, "offset": offset, "minimum": minimum,
+                "record_length": n, "ring": True, "classes": classes}
 
     def minimum(self, seq):
         rng = self.rng
@@ -445,30 +538,124 @@ def intergenic_oracle(case, areas):
 
 
 def orf_oracle(case, locs, starts, stops):
-    """ implementation-side: every reported location extracts (Biopython) to start .. stop without inner stop """
+    """ implementation-side, independent of the model: every reported location lies inside the record (record length
+        given: 0 <= start < end <= record length for every part, at most two parts, two parts split at the origin and in
+        the order of transcription), extracts (Biopython) to start .. stop without inner stop, and the extracted text is
+        the text of an ORF of the scanned window (reference scanner); the number of locations is the number of ORFs of
+        the window longer than the minimum """
+    n = case["record_length"]
+    if n is not None:
+        for loc in locs:
+            parts = list(loc.parts)
+            if len(parts) > 2:
+                return f"{loc}: more than two parts"
+            if any(p.strand != case["direction"] for p in parts):
+                return f"{loc}: not on the scanned strand"
+            if not all(0 <= int(p.start) < int(p.end) <= n for p in parts):
+                return f"{loc}: coordinates outside the record of {n} bases"
+            if len(parts) == 2:
+                low, high = parts if case["direction"] == -1 else parts[::-1]
+                if not (int(low.start) == 0 and int(high.end) == n and int(low.end) <= int(high.start)):
+                    return f"{loc}: two parts that are not split at the origin in the order of transcription"
+    window_orfs = ref_orfs(case["seq"], starts, stops)
+    wanted = [(a, b) for a, b in window_orfs if b - a >= case["minimum"]]
+    if len(locs) != len(wanted):
+        return f"{len(locs)} locations for {len(wanted)} ORFs of the window longer than the minimum"
     if case["genome"] is None:
         return None
     from Bio.Seq import Seq
     genome = Seq(case["genome"])
+    texts = {case["seq"][a:b + 1] for a, b in wanted}
     for loc in locs:
-        text = str(loc.extract(genome)).upper()
+        raw = str(loc.extract(genome))
+        text = raw.upper()
         if len(text) % 3 or len(text) < 6:
-            return f"extracted length {len(text)}"
+            return f"{loc}: extracted length {len(text)}"
         codons = [text[i:i + 3] for i in range(0, len(text), 3)]
         if codons[0] not in starts:
-            return "does not begin with a start codon"
+            return f"{loc}: does not begin with a start codon"
         if codons[-1] not in stops:
-            return "does not end with a stop codon"
+            return f"{loc}: does not end with a stop codon"
         if any(c in stops for c in codons[:-1]):
-            return "contains an inner stop codon"
+            return f"{loc}: contains an inner stop codon"
         if len(text) - 1 < case["minimum"]:
-            return "shorter than the minimum"
+            return f"{loc}: shorter than the minimum"
+        if raw not in texts:
+            return f"{loc}: extracts to {raw}, which is not the text of an ORF of the window"
     return None
 
 
-RULE = ("scan_orfs: windows of codon-structured random genomes (start/stop codons enriched, lower case and ambiguity codes, "
-        "0-2 bases of frame shift), full record / inner window / window starting before the origin, both strands, minimum length "
-        "on and around ORF lengths, with and without record length; the Gallina specification (is_orf, positions, minimum) is "
+# deterministic head of the scan_orfs stream: the ring of Theorems.C15_coordinates_any_offset_nonvacuous (30 bases, ORF
+# ATG AAA CCC TAA over the origin at 24..29 + 0..5) and its reverse complement; the window [21, 39) told by its real start
+# (positive offset, overshooting the record end by 9), as find_all_orfs tells it (-9), a turn further (51, -39); a window
+# ending exactly at the record end, one overshooting by 1, the whole record from its middle; both strands; minimum
+# below, on and above the ORF's 12 bases (on = the recorded finding orf_exact_minimum)
+_RING = "CCCTAA" + "C" * 18 + "ATGAAA"
+_RING2 = "CCCATGAAATAA" + "C" * 18
+
+
+def scan_corpus():
+    out = []
+
+    def add(ring, start, length, offset, direction, minimum):
+        n = len(ring)
+        chunk = (ring * 3)[start % n:start % n + length]
+        out.append({"genome": ring, "seq": chunk if direction == 1 else revcomp(chunk), "direction": direction,
+                    "offset": offset, "minimum": minimum, "record_length": n, "ring": True, "classes": ["scan_corpus"]})
+    for ring, direction in ((_RING, 1), (revcomp(_RING), -1)):
+        for offset in (21, -9, 51, -39):
+            add(ring, 21, 18, offset, direction, 6)
+        for minimum in (10, 11, 12):
+            add(ring, 21, 18, 21, direction, minimum)
+        add(ring, 12, 18, 12, direction, 6)      # ends exactly at the record end
+        add(ring, 13, 18, 13, direction, 6)      # overshoots by one base
+        add(ring, 15, 30, 15, direction, 6)      # the whole record from its middle
+        add(ring, 15, 30, -15, direction, 6)
+        add(ring, 0, 30, 30, direction, 6)       # offset = record length
+    for ring, direction in ((_RING2, 1), ("CCC" + revcomp("ATGAAATAA") + "C" * 18, -1)):
+        add(ring, 27, 18, 27, direction, 6)      # an ORF wholly after the origin in an overshooting window
+        add(ring, 27, 18, -3, direction, 6)
+    return out
+
+
+def scan_enumeration(tier):
+    """ exhaustive over the position arguments on small rings: every offset from -2N to 2N (two turns either side), window
+        lengths 9..N (quick) / 0..N (thorough), both strands of the ring and of its reverse complement; the rings carry an
+        ORF over the origin (12 bases: ATG AAA TAA at 9..11 + 0..5) """
+    out = []
+    rings = ["AAATAACCCATG"] if tier == "quick" else ["AAATAACCCATG", "AAATAACCCCATG", "GAAATAGCCTTGATGC"]
+    for base in rings:
+        n = len(base)
+        lengths = range(9, n + 1) if tier == "quick" else range(0, n + 1)
+        minima = (6,) if tier == "quick" else (0, 5, 8, 9, 11)
+        for ring in (base, revcomp(base)):
+            for direction in (1, -1):
+                for length in lengths:
+                    for offset in range(-2 * n, 2 * n + 1):
+                        start = offset % n
+                        chunk = (ring * 3)[start:start + length]
+                        for minimum in minima:
+                            out.append({"genome": ring, "seq": chunk if direction == 1 else revcomp(chunk),
+                                        "direction": direction, "offset": offset, "minimum": minimum, "record_length": n,
+                                        "ring": True, "classes": ["enumerated_offsets"]})
+    return out
+
+
+RULE = ("scan_orfs over its argument space: texts from a codon-structured random source (start/stop codons enriched, lower case "
+        "and ambiguity codes, 0-2 bases of frame shift) or with 1-3 planted ORFs; with a record length (88 %): the text is a window "
+        "of at most the record length (window = record 25 %) of a ring built around it, the ring's origin outside the window "
+        "(window before the record end, or ending exactly on it), 1-3 bases before the window's end, on / next to / inside an "
+        "ORF of the window, or anywhere, and the window's position told by its real start (offset >= 0, overshooting the record "
+        "end), by start - record length (negative, the way find_all_orfs tells it), or a turn further either side (offset >= "
+        "record length, offset < -record length); without a record length: a window of a linear genome at offset 0-30 or a "
+        "free-standing text at a negative offset; both strands; minimum length on and around the length of an ORF of the window, "
+        "small values, 60, random; a deterministic corpus of 28 such calls on a 30-base ring runs first, then an ENUMERATION of the "
+        "position arguments on small rings with an ORF over the origin (every offset from -2N to 2N, window lengths 9..N on a "
+        "12-base ring in quick = 784 calls; lengths 0..N, five minima, rings of 12, 13 and 16 bases in thorough = 50 k calls; both "
+        "strands of the ring and of its reverse complement); windows LONGER than "
+        "the record are not generated (not a window of the record; an ORF longer than the record has no location on it); "
+        "the Gallina specification (spec_scan: is_orf, positions, minimum; for ring windows spec_scan_ring: also ring shape and "
+        "extraction from the record = text of an ORF of the window) and an independent Python/Biopython oracle are "
         "evaluated on EVERY implementation output; find_intergenic_areas: 0-6 genes incl. nested, staggered and "
         "(rarely) unsorted, padding 0-10, minimum placed on gap lengths, with a bitmap oracle for soundness/coverage/maximality; "
         "find_all_orfs: real Records (genomes of 24-190 nt, ACGT/acgt, 12 % with IUPAC ambiguity codes and planted TAR/TRA/YTA/TYA/"
@@ -607,6 +794,50 @@ def run_trimmed(chk, gen, all_orfs, case=None):
     return flat, out, nontrivial, sample
 
 
+def run_scan(chk, all_orfs, starts, stops, case, index, spec_cases, spec_of):
+    """ one scan_orfs call: correspondence case (run id 1), the implementation-side oracle, and the Gallina specification
+        on the implementation's output - run id 13 (spec_scan_ring: spec_scan + ring shape + extraction from the record) when
+        the window was cut out of a ring, run id 11 (spec_scan) otherwise """
+    rl = case["record_length"]
+    flat = [PROP, 1, len(case["seq"])] + [ord(c) for c in case["seq"]] + \
+           [case["direction"], case["offset"], case["minimum"]] + ([0] if rl is None else [1, rl])
+    for cls in case["classes"]:
+        chk.count("scan_" + cls)
+    chk.count("scan_direction_" + ("forward" if case["direction"] == 1 else "reverse"))
+    try:
+        locs = all_orfs.scan_orfs(case["seq"], case["direction"], case["offset"], case["minimum"], rl)
+        out = [len(locs)]
+        for loc in locs:
+            out += enc_pyloc(loc)
+        bad = orf_oracle(case, locs, starts, stops)
+        if bad:
+            chk.violation("counterexample", f"scan_orfs reports a location that is not an ORF of the record: {bad}",
+                          {"theorem_or_correspondence": "C15_coordinates_any_offset / scan_orfs", "input": case, "flat": flat,
+                           "implementation": [str(l) for l in locs]})
+        # the Gallina specification on this output
+        if case["ring"]:
+            spec_cases.append([PROP, 13] + enc_chars(case["genome"]) + flat[2:] + out)
+        else:
+            spec_cases.append([PROP, 11] + flat[2:] + out)
+        spec_of.append((index, case, [str(l) for l in locs]))
+        chk.count("scan_orfs")
+        chk.count(f"orfs_{min(len(locs), 3)}{'+' if len(locs) >= 3 else ''}")
+        if any(len(l.parts) > 1 for l in locs):
+            chk.count("wrapped_orf")
+            if "positive_offset_overshooting" in case["classes"]:
+                chk.count("wrapped_orf_positive_offset")
+        if rl is not None and 0 <= case["offset"] < rl and \
+                any(len(l.parts) == 1 and int(l.end) <= case["offset"] + len(case["seq"]) - rl for l in locs):
+            chk.count("orf_after_origin_positive_offset")
+        nontrivial = len(locs) > 0
+    except Exception as exc:  # pylint: disable=broad-except
+        out = [-1, err_code(exc)]
+        chk.count("error_" + common.ERR_NAME.get(out[1], str(out[1])))
+        nontrivial = False
+    sample = {"function": "scan_orfs", **case, "implementation": out}
+    return flat, out, nontrivial, sample
+
+
 def run(chk):
     if not chk.build_and_audit():
         return chk.finish(RULE)
@@ -623,42 +854,23 @@ def run(chk):
     PENDING_BASE = cases
     corpus = regression_cases()
     trimmed_corpus = [dict(case) for case in REGRESSION_TRIMMED]
+    scan_head = scan_corpus() + scan_enumeration(chk.tier)
+    head = len(corpus) + len(trimmed_corpus) + len(scan_head)
     for i in range(total):
         r = chk.rng.random()
         if i < len(corpus):
             flat, out, nontrivial, sample = run_find_all(chk, gen, all_orfs, starts, stops, case=corpus[i])
         elif i < len(corpus) + len(trimmed_corpus):
             flat, out, nontrivial, sample = run_trimmed(chk, gen, all_orfs, case=trimmed_corpus[i - len(corpus)])
+        elif i < head:
+            flat, out, nontrivial, sample = run_scan(chk, all_orfs, starts, stops,
+                                                     scan_head[i - len(corpus) - len(trimmed_corpus)], len(cases),
+                                                     spec_cases, spec_of)
         elif r < 0.04:
             flat, out, nontrivial, sample = run_trimmed(chk, gen, all_orfs)
         elif r < 0.63:
-            case = gen.scan_case()
-            rl = case["record_length"]
-            flat = [PROP, 1, len(case["seq"])] + [ord(c) for c in case["seq"]] + \
-                   [case["direction"], case["offset"], case["minimum"]] + ([0] if rl is None else [1, rl])
-            try:
-                locs = all_orfs.scan_orfs(case["seq"], case["direction"], case["offset"], case["minimum"], rl)
-                out = [len(locs)]
-                for loc in locs:
-                    out += enc_pyloc(loc)
-                bad = orf_oracle(case, locs, starts, stops)
-                if bad:
-                    chk.violation("counterexample", f"scan_orfs reports a location that is not an ORF of the genome: {bad}",
-                                  {"theorem_or_correspondence": "C15_coordinates / scan_orfs", "input": case, "flat": flat,
-                                   "implementation": [str(l) for l in locs]})
-                # the Gallina specification on this output
-                spec_cases.append([PROP, 11] + flat[2:] + out)
-                spec_of.append((len(cases), case, [str(l) for l in locs]))
-                chk.count("scan_orfs")
-                chk.count(f"orfs_{min(len(locs), 3)}{'+' if len(locs) >= 3 else ''}")
-                if any(len(l.parts) > 1 for l in locs):
-                    chk.count("wrapped_orf")
-                nontrivial = len(locs) > 0
-            except Exception as exc:  # pylint: disable=broad-except
-                out = [-1, err_code(exc)]
-                chk.count("error_" + common.ERR_NAME.get(out[1], str(out[1])))
-                nontrivial = False
-            sample = {"function": "scan_orfs", **case, "implementation": out}
+            flat, out, nontrivial, sample = run_scan(chk, all_orfs, starts, stops, gen.scan_case(), len(cases),
+                                                     spec_cases, spec_of)
         elif r < 0.9:
             case = gen.intergenic_case()
             genes = [types.SimpleNamespace(location=types.SimpleNamespace(start=s, end=e)) for s, e in case["genes"]]
@@ -687,11 +899,35 @@ def run(chk):
     suppressed = 0
     for verdict, (idx, case, shown) in zip(verdicts, spec_of):
         chk.count("spec_evaluated")
-        if len(verdict) != 3:
+        if len(verdict) != (7 if case["ring"] else 3):
             chk.violation("broken-correspondence", "the specification could not be evaluated on an implementation output",
-                          {"theorem_or_correspondence": "spec_scan", "input": case, "flat": cases[idx], "verdict": verdict})
+                          {"theorem_or_correspondence": "spec_scan_ring" if case["ring"] else "spec_scan", "input": case,
+                           "flat": cases[idx], "verdict": verdict})
             break
-        spec_ok, guard, spec_partial = verdict
+        spec_ok, guard, spec_partial = verdict[:3]
+        if case["ring"]:
+            chk.count("spec_ring_evaluated")
+            shape_ok, orf_text_ok, extract_ok, consistent = verdict[3:]
+            if not consistent:
+                chk.violation("broken-correspondence", "generator: the text handed to scan_orfs is not the window of the "
+                              "record at the offset told (Model.ring_window)",
+                              {"theorem_or_correspondence": "spec_scan_ring (generator consistency)", "input": case,
+                               "flat": cases[idx], "verdict": verdict})
+                break
+            if not (shape_ok and orf_text_ok and extract_ok):
+                # theorem C15_scan_ring_spec_ok: the model's output passes these three for every window not longer than
+                # the record; no recorded finding concerns them, so a failure is always a violation
+                chk.violation("counterexample", "scan_orfs on a window of a circular record: a reported location "
+                              + ("does not lie inside [0, record_length) in at most two parts split at the origin" if not shape_ok
+                                 else "does not extract from the record to an open reading frame" if not orf_text_ok
+                                 else "does not extract from the record to the text of an ORF of the scanned window"),
+                              {"theorem_or_correspondence": "C15_coordinates_any_offset / C15_scan_ring_spec_ok (spec_scan_ring)",
+                               "input": case, "flat": cases[idx], "implementation": shown, "model": model_outs[idx],
+                               "spec_verdict_on_implementation_output": {
+                                   "spec_ok": spec_ok, "guard_no_exact_minimum_orf": guard,
+                                   "spec_ok_with_length_above_minimum": spec_partial, "ring_shape_ok": shape_ok,
+                                   "extracts_to_an_orf_text": orf_text_ok, "extracts_to_an_orf_of_the_window": extract_ok}})
+                continue
         if spec_ok:
             continue
         if not guard and exact_minimum_known and spec_partial and impl_outs[idx] == model_outs[idx]:
